@@ -31,16 +31,6 @@ pub fn run_fault_free(id: &'static str, plan: &ClientPlan, want_trace: bool) -> 
             out.violations.push(v);
         }
     }
-    // nothing went wrong in this run - no fault, every packet within 10 s of the previous one, business-level
-    // result codes only: a client that nevertheless abandoned a connection gave an exchange up that was
-    // running normally (and, as a rule, repeated it) - whatever the property, its premise "the terminal
-    // completed / reported ..." can then no longer be observed
-    if !faulty && plan.pt.registration_currency.is_none() && run.conns.len() > 1 {
-        let odd_abort = run.pt.lock().unwrap().requests.iter().any(|r| r.abort_sent.map(|c| !crate::c09::business_abort(c)).unwrap_or(false));
-        if !odd_abort && !run.ops.iter().any(|o| matches!(o.result, client::OpResult::Panic { .. } | client::OpResult::Hang)) {
-            out.fail("gave_up_without_a_fault", "fault_free", format!("{} connections were opened in a run without any fault (slowest packet: {} ms after the previous one)", run.conns.len(), plan.pt.pace_ms as u64 + plan.max_delay_ms as u64));
-        }
-    }
     out.states = j.states;
     out.stats = j.stats;
     run.add_stats(&mut out.stats);
@@ -228,6 +218,31 @@ pub fn limit_delays(plan: &mut ClientPlan) {
     if per_packet(plan) > PER_PACKET_MS {
         plan.pt.frame_pause = plan.pt.frame_pause.map(|f| (f.0, f.1.min(150), f.2));
         plan.max_delay_ms = plan.max_delay_ms.min(900);
+    }
+    // an exchange as a whole (all its packets) stays inside 30 s: a deadline over a whole exchange - 60 s,
+    // say - is as legitimate as a time-out per packet (false-alarm review 3)
+    const PER_EXCHANGE_MS: u64 = 30_000;
+    let cleanup_packets = |c: &CleanupSpec| -> u64 {
+        let rev = |r: &RevOutcome| r.pre as u64 + 2 + r.prints as u64 + 1;
+        (c.pending_pre as u64 + 1).max(rev(&c.cancel)).max(c.eod.pre as u64 + 1 + c.eod.prints as u64 + 1)
+    };
+    let packets = plan
+        .ops
+        .iter()
+        .map(|o| match o {
+            OpSpec::Begin { res, .. } => res.pre as u64 + 2 + res.prints as u64 + 1,
+            OpSpec::Commit { rev, cleanup, .. } | OpSpec::Cancel { rev, cleanup, .. } => (rev.pre as u64 + 2 + rev.prints as u64 + 1).max(cleanup_packets(cleanup)),
+            OpSpec::Configure { out } => (out.init_pre as u64 + out.init_prints as u64 + 1).max(cleanup_packets(&out.cleanup)),
+            OpSpec::ReadCard { .. } => 0,
+        })
+        .chain(std::iter::once((plan.init.init_pre as u64 + plan.init.init_prints as u64 + 1).max(cleanup_packets(&plan.init.cleanup))))
+        .max()
+        .unwrap_or(1)
+        .max(1);
+    if packets * per_packet(plan) > PER_EXCHANGE_MS {
+        let room = (PER_EXCHANGE_MS / packets).saturating_sub(plan.pt.frame_pause.map(|f| f.1 as u64).unwrap_or(0));
+        plan.max_delay_ms = plan.max_delay_ms.min((room / 4) as u32);
+        plan.pt.pace_ms = plan.pt.pace_ms.min(room.saturating_sub(plan.max_delay_ms as u64) as u32);
     }
     // card readings: (non-final packets + final packet) x per-packet slowness + the card's own delay
     let budget = plan.cfg.read_card_timeout as u64 * 1000;
@@ -952,6 +967,22 @@ impl Check for ClientCheck {
         match self.id {
             "C07" => {
                 fams.push(Family::new("reply_packets_in_unusual_order", UNUSUAL_ORDER_N, true, |i, _| unusual_order_plan(i)));
+                // a slow but healthy terminal while the card-reading time is configured short (one reservation,
+                // one reversal: their time-outs are not the card reading's)
+                fams.push(Family::new("slow_terminal_with_short_card_reading_time", 4 * 2, true, |i, _| {
+                    let mut p = ClientPlan::plain(vec![
+                        OpSpec::Begin { token: "A".into(), res: ResOutcome { pre: 1, prints: 1, ..ResOutcome::success() } },
+                        if i % 2 == 0 {
+                            OpSpec::Commit { token: "A".into(), amount: 1200, rev: RevOutcome { pre: 1, status: true, prints: 1, end: EndSpec::Completion }, cleanup: CleanupSpec::plain() }
+                        } else {
+                            OpSpec::Cancel { token: "A".into(), rev: RevOutcome { pre: 1, status: true, prints: 0, end: EndSpec::Completion }, cleanup: CleanupSpec::plain() }
+                        },
+                    ]);
+                    let (rc, pace) = [(0u8, 4_000u32), (1, 5_000), (3, 7_000), (5, 7_000)][(i / 2) as usize];
+                    p.cfg.read_card_timeout = rc;
+                    p.pt.pace_ms = pace;
+                    p
+                }));
                 // tokens of every length 0..=300 (the requests that carry them cross the 127/128 and 254/255
                 // length switches at different token lengths): begin, then commit or cancel
                 fams.push(Family::new("token_of_every_length", 301 * 2, true, |i, _| {
@@ -1078,7 +1109,7 @@ impl Check for ClientCheck {
                             OpSpec::Cancel { token: "A".into(), rev: RevOutcome { pre: 1, status: true, prints: 0, end: EndSpec::Completion }, cleanup: CleanupSpec::plain() }
                         },
                     ]);
-                    let (rc, pace) = [(0u8, 4_000u32), (1, 5_000), (3, 8_000), (5, 9_500)][(i / 2) as usize];
+                    let (rc, pace) = [(0u8, 4_000u32), (1, 5_000), (3, 7_000), (5, 7_000)][(i / 2) as usize];
                     p.cfg.read_card_timeout = rc;
                     p.pt.pace_ms = pace;
                     p
